@@ -468,7 +468,18 @@ func (v *Value) toGoValueInterval(rootValues []*Value, checkCircularReference bo
 		return array, nil
 	case ValueObj:
 		obj := make(map[string]interface{})
-		for k, objVal := range *v.Obj {
+		// convert the members in sorted key order, so that which error is
+		// reported (if several members fail) does not depend on map order
+		keys := make([]string, 0, len(*v.Obj))
+		for k := range *v.Obj {
+			keys = append(keys, k)
+		}
+		sort.Strings(keys)
+		for _, k := range keys {
+			objVal, present := (*v.Obj)[k]
+			if !present {
+				continue
+			}
 			val, err := objVal.Value.toGoValueInterval(append(rootValues, v), true)
 			if err != nil {
 				return nil, err
